@@ -24,12 +24,16 @@ import (
 	"google.golang.org/grpc/status"
 	"google.golang.org/protobuf/encoding/prototext"
 	"google.golang.org/protobuf/proto"
+	"google.golang.org/protobuf/types/known/durationpb"
 	"k8s.io/apimachinery/pkg/runtime"
 
+	meshconfig "istio.io/api/mesh/v1alpha1"
 	"istio.io/istio/pilot/pkg/features"
 	"istio.io/istio/pilot/pkg/model"
 	xdsfake "istio.io/istio/pilot/test/xds"
 	"istio.io/istio/pkg/config"
+	"istio.io/istio/pkg/config/mesh"
+	"istio.io/istio/pkg/config/mesh/meshwatcher"
 	"istio.io/istio/pkg/config/schema/collections"
 	kubelib "istio.io/istio/pkg/kube"
 	istiolog "istio.io/istio/pkg/log"
@@ -108,6 +112,39 @@ type wisOpts struct {
 	configs       []config.Config
 	kubeObjects   []runtime.Object
 	noCache       bool
+	// meshVariant selects the mesh configuration (simMesh); it changes at run time through setMesh, as a reload of
+	// the mesh ConfigMap would, and a replica built from these options starts with the current one
+	meshVariant int
+}
+
+// simMesh is the mesh configuration of every simulated control plane: the default plus one access-log-service
+// extension provider that resolves to a host of the workload's pool. Variant bits: 1 = file access log on,
+// 2 = outbound traffic policy REGISTRY_ONLY, 4 = connect timeout 3s (an input of every cached cluster).
+func simMesh(variant int) *meshconfig.MeshConfig {
+	m := mesh.DefaultMeshConfig()
+	m.ExtensionProviders = append(m.ExtensionProviders, &meshconfig.MeshConfig_ExtensionProvider{
+		Name: "als",
+		Provider: &meshconfig.MeshConfig_ExtensionProvider_EnvoyHttpAls{
+			EnvoyHttpAls: &meshconfig.MeshConfig_ExtensionProvider_EnvoyHttpGrpcV3LogProvider{Service: "b.example.com", Port: 80},
+		},
+	})
+	if variant&1 != 0 {
+		m.AccessLogFile = "/dev/stdout"
+	}
+	if variant&4 != 0 {
+		m.ConnectTimeout = durationpb.New(3 * time.Second)
+	}
+	if variant&2 != 0 {
+		m.OutboundTrafficPolicy = &meshconfig.MeshConfig_OutboundTrafficPolicy{Mode: meshconfig.MeshConfig_OutboundTrafficPolicy_REGISTRY_ONLY}
+	}
+	return m
+}
+
+// setMesh replaces the mesh configuration of a running instance; the registered mesh handler (the one
+// bootstrap.initMeshHandlers installs) then requests the forced global push.
+func (i *wisInstance) setMesh(variant int) {
+	i.opts.meshVariant = variant
+	i.fds.Env().Watcher.(meshwatcher.TestWatcher).Set(simMesh(variant))
 }
 
 type wisInstance struct {
@@ -139,8 +176,13 @@ func newWisInstance(t *testing.T, name string, o wisOpts) *wisInstance {
 		Configs:            o.configs,
 		KubernetesObjects:  o.kubeObjects,
 		KubeClientModifier: o.kubeModifier,
+		MeshConfig:         simMesh(o.meshVariant),
 	})
 	features.EnableXDSCaching = prevCache
+	// what bootstrap.initMeshHandlers does: a mesh configuration change requests a forced global push
+	fds.Env().AddMeshHandler(func() {
+		fds.Discovery.ConfigUpdate(&model.PushRequest{Reason: model.NewReasonStats(model.GlobalUpdate), Forced: true})
+	})
 	// The connection rate limit is derived from GOMAXPROCS at process start; it belongs to no property and would make
 	// the schedule depend on the worker's core count. Limit 0 = opt out (WaitForRequestLimit returns at once).
 	fds.Discovery.RequestRateLimit = rate.NewLimiter(0, 1)
